@@ -541,7 +541,7 @@ func runC16(c *Ctx) {
 	c.handlerFrameRule("R1")
 	// R2
 	n := 0
-	funcInstrs(a.SetDispatch, func(in ssa.Instruction) {
+	funcInstrs(c.fanOut().Fn, func(in ssa.Instruction) {
 		g, ok := in.(*ssa.Go)
 		if !ok {
 			return
